@@ -480,7 +480,7 @@ func (o *orch) keyFor(j *job, ts PlatSpec, variant, diff string, t, tfRun runOut
 	}
 	if t.res.Deadlock {
 		k := prefix + "|timing-deadlock"
-		if fd.Found {
+		if fd.Found && fd.Name != "" {
 			k += fmt.Sprintf("|%s|%d|%s", fd.Fmt, fd.Op, fd.Name)
 		}
 		return k, "program terminates in emulation and never finishes on the timing platform (engine idle, application waiting; phase " + t.res.Phase + ")"
